@@ -3,7 +3,7 @@
 SPECIFICATION Spec
 CONSTANTS
   Variant = "as_shipped"
-  Kinds = {"mft", "mftn", "ta", "tah", "notify", "notify1"}
+  Kinds = {"mft", "mftn", "mftr", "ta", "tah", "notify", "notify1"}
   Mode = "near"
   HostsR = {"h.test", "h.test."}
   HostsH = {"h.test", "h.test.", "..", ""}
